@@ -242,6 +242,68 @@ theorem C08_shutdown_id (L n : Nat) (h4 : L % 4 = 0) (hL : L < 2^62) (hn : n < 2
   simp only [index, Nat.reducePow, Nat.reduceSub] at a2 b2
   exact ⟨sat_arith L n _ _ h4 hk a1 a2, sat_arith0 n _ b1 b2⟩
 
+/-! ### `accept` says "no more requests" only when drained
+
+`poll_accept_request_stream_internal` answers `Ready(Ok(None))` in two places, both behind
+`poll_requests_completion(cx).is_ready()` (= the request-end channel is emptied into
+`ongoing_streams`, then "is `ongoing_streams` empty?"): when the transport has no stream and a
+GOAWAY of the peer has been processed (C09's case), and — after a *local* `shutdown` — right after
+refusing a stream at or above the identifier sent.  `H3.Goaway.acceptLoop` has both. -/
+
+/-- **`None` only when drained, state by state.**  For every connection state `s` and every queue
+    `q` of streams waiting in the transport: one run of the accept loop answers `None` *exactly*
+    when no request is ongoing at that moment (`ongoing_streams` is empty) and either the first
+    stream waiting is one the filter refuses (local shutdown: its ID is at or above the
+    identifier sent) or nothing waits and a GOAWAY of the peer has been processed.  Such a run
+    shows no request to the application and leaves `ongoing_streams` empty.  In particular a
+    refusal while a request shown earlier is still in progress never ends `accept`. -/
+theorem C08_accept_none_only_when_drained (s : State) (q : List Nat) :
+    (Obs.acceptNone ∈ (acceptLoop s q).2 ↔
+      s.ongoing = [] ∧ ((∃ id rest, q = id :: rest ∧ rejects s.sentClosing id = true) ∨
+                        (q = [] ∧ s.recvClosing.isSome = true))) ∧
+    (Obs.acceptNone ∈ (acceptLoop s q).2 →
+      surfacedIn (acceptLoop s q).2 = [] ∧ (acceptLoop s q).1.ongoing = []) := by
+  refine ⟨acceptLoop_none_iff q s, ?_⟩
+  intro hn
+  have h1 := acceptLoop_none_quiet q s hn
+  have h2 := ((acceptLoop_none_iff q s).mp hn).1
+  refine ⟨h1, ?_⟩
+  rw [acceptLoop_ongoing, h1, h2]; rfl
+
+-- a refusal with request 0 still in progress does not end `accept`; with nothing in progress it does
+example : (acceptLoop { sentClosing := some 4, largest := some 0, ongoing := [0] } [4, 8]).2 =
+      [.rejected 4, .rejected 8, .acceptPending] ∧
+    (acceptLoop { sentClosing := some 4, largest := some 0, ongoing := [] } [4, 8]).2 =
+      [.rejected 4, .acceptNone] ∧
+    -- an acceptable stream behind a refused one is still served while a request is in progress
+    (acceptLoop { sentClosing := some 12, largest := some 0, ongoing := [0] } [12, 4]).2 =
+      [.rejected 12, .surfaced 4] := by decide
+
+/-- **… and over whole histories.**  In every history (any interleaving of arrivals, `accept`
+    polls, `shutdown n`, completions, GOAWAYs of the peer), with *in progress* read off the history
+    alone (`H3.Spec.Goaway.inProgress`: shown to the application by an earlier step and no
+    `complete` for it since): `ongoing_streams` is exactly the set of requests in progress, and a
+    step that shows `None` is an `accept` made when no request is in progress (none is in
+    progress after it either). -/
+theorem C08_accept_none_history (evs : List Ev) :
+    inProgress (trace {} evs) = (run {} evs).1.ongoing ∧
+    (∀ pre st post, trace {} evs = pre ++ st :: post → Obs.acceptNone ∈ st.2 →
+      st.1 = .accept ∧ inProgress pre = [] ∧ inProgress (pre ++ [st]) = []) := by
+  obtain ⟨h1, h2⟩ := trace_progress evs {} [] rfl
+  refine ⟨by simpa using h1, ?_⟩
+  intro pre st post h hn
+  simpa using h2 pre st post h hn
+
+-- local shutdown: stream 4 is refused while request 0 is in progress (`accept` keeps waiting);
+-- once request 0 has completed the next refusal ends `accept`
+example : trace {} [.arrive 0, .accept, .shutdown 0, .arrive 4, .accept, .complete 0, .arrive 8, .accept] =
+    [(.arrive 0, []), (.accept, [.surfaced 0]), (.shutdown 0, [.goaway 4, .shutdownOk]), (.arrive 4, []),
+     (.accept, [.rejected 4, .acceptPending]), (.complete 0, []), (.arrive 8, []),
+     (.accept, [.rejected 8, .acceptNone])] := by decide
+example : inProgress (trace {} [.arrive 0, .accept, .shutdown 0, .arrive 4, .accept]) = [0] ∧
+    inProgress (trace {} [.arrive 0, .accept, .shutdown 0, .arrive 4, .accept, .complete 0, .arrive 8]) = [] := by
+  decide
+
 /-! ### client -/
 
 /-- events of a client history; identifiers come off the wire as 62-bit integers
